@@ -155,12 +155,20 @@ func VP_C18_Upstream() {
 		cerr := x.Connect(mgr, false)
 		vp.Assert(cerr == nil, "connect-succeeds")
 		vp.Assert((vpE.tlsDials == 1) == wantTls && (vpE.plainDials == 1) == !wantTls, "socket-upstream-dials-tls-iff-tls-scheme")
+		// the same upstream entry is dialled again after the session was lost: same transport
+		cerr = x.Connect(mgr, false)
+		vp.Assert(cerr == nil, "reconnect-succeeds")
+		vp.Assert((vpE.tlsDials == 2) == wantTls && (vpE.plainDials == 2) == !wantTls, "socket-upstream-redials-the-same-transport")
 	case *Http:
 		cerr := x.Connect(mgr, false)
 		vp.Assert(cerr == nil, "connect-succeeds")
 		vp.Assert(len(vpE.ws) == 1, "websocket-dialled")
 		vp.Assert(strings.HasPrefix(vpE.ws[0].url, "wss://") == wantTls && strings.HasPrefix(vpE.ws[0].url, "ws://") == !wantTls, "http-upstream-dials-wss-iff-tls-scheme")
 		vp.Assert((vpE.ws[0].cfg != nil) == wantTls, "tls-config-iff-tls-scheme")
+		vpE.script = append([]byte(nil), vpE.script...)
+		cerr = x.Connect(mgr, false)
+		vp.Assert(cerr == nil && len(vpE.ws) == 2, "reconnect-succeeds")
+		vp.Assert(strings.HasPrefix(vpE.ws[1].url, "wss://") == wantTls, "http-upstream-redials-the-same-transport")
 	case *InputOutput:
 		vpE.carrier = &vpCarrier{in: vpE.script}
 		x.Input, x.Output = vp04Rc{vpE.carrier}, vp04Rc{vpE.carrier}
